@@ -614,9 +614,16 @@ def r_accessor_eq(A, ctx, scope, rule="R-ACCESSOR-EQ", select=None):
     n = 0
     PAT43 = [[1, 0, 1], [1, 1, 0], [0, 1, 1], [1, 0, 0]]
     X43, csc43 = _design(PAT43)
-    for tag, Xd, cscd, R_, C_ in (("3x3", X, csc, N, P), ("4x3", X43, csc43, 4, 3)):
+    # a wide design for group datafits: 2 samples x 4 features, groups [1, 0, 3] (unsorted, not the
+    # contiguous run its first and last entries suggest, more features than samples) and [2]
+    X24, csc24 = _design([[1, 1, 0, 1], [1, 0, 1, 1]])
+    WIDE = dict(grp_ptr=Vec([0, 3, 4]), grp_indices=Vec([1, 0, 3, 2]))
+    for tag, Xd, cscd, R_, C_ in (("3x3", X, csc, N, P), ("4x3", X43, csc43, 4, 3), ("2x4 wide group", X24, csc24, 2, 4)):
         for dcls in prog.datafits:
             multitask = dcls.is_subclass_of(prog.BaseMultitaskDatafit)
+            wide = tag.startswith("2x4")
+            if wide and "grp_ptr" not in dict(prog.spec_of(dcls) or []):
+                continue
             names = sorted(m for m in dcls.all_methods() if m.endswith("_sparse"))
             for ms in names:
                 md = ms[: -len("_sparse")]
@@ -643,11 +650,12 @@ def r_accessor_eq(A, ctx, scope, rule="R-ACCESSOR-EQ", select=None):
                             for t in range(T):
                                 vals.setdefault(f"Y{i}{t}", 0.4 * (t + 1) - 0.3 * i)
                                 vals.setdefault(f"XW{i}{t}", 0.3 * (t + 1) - 0.45 * i)
-                            for j in range(3):
-                                vals.setdefault(f"x{i}{j}", 0.35 + 0.1 * j - 0.05 * i)
+                            for j in range(4):
+                                vals.setdefault(f"x{i}{j}", 0.35 + 0.1 * j - 0.05 * i + 0.3 * ((i + j) % 2))
+                                vals.setdefault(f"w{j}", 0.2 - 0.15 * j)
                         rg = Region(vals)
                         L = RegionLifter(prog, rg, max_steps=40000)
-                        dobj = make_obj(prog, dcls)
+                        dobj = make_obj(prog, dcls, extra=WIDE if wide else None)
                         if "sample_weights" in dobj.attrs:
                             dobj.attrs["sample_weights"] = Vec(sym(f"sw{i}") for i in range(ny))
                         yv = Mat(Vec(sym(f"Y{i}{t}") for t in range(T)) for i in range(ny)) if multitask \
@@ -679,7 +687,7 @@ def r_accessor_eq(A, ctx, scope, rule="R-ACCESSOR-EQ", select=None):
                             elif p == "j":
                                 args.append(2)
                             elif p == "g":
-                                args.append(1)
+                                args.append(0 if wide else 1)
                             else:
                                 raise Unsupported(f"parameter {p} of {f.name} not bound")
                         outs.append((L.call_function(f, args, self_obj=dobj), rg))
